@@ -48,6 +48,7 @@ RejRun(why) == Rej(why) /\ v_bad' = TRUE /\ UNCHANGED <<v_ref, v_pos, v_pend>>
 Step(ev) ==
   CASE ev.e = "prog" ->
          LET S == Execute(ev.tpls, ev.entry, ev.ctx) IN
+         /\ PrintT(ToJson([stat |-> S.status]))         \* how many runs the reference decides (ok/err) and how many fall out of the model
          /\ v_ref' = [status |-> S.status, log |-> MergeW(Public(S.log))]
          /\ v_pos' = 1 /\ v_pend' = <<>> /\ v_bad' = FALSE
     [] ev.e = "w" ->
